@@ -19,7 +19,7 @@
 //!           r<hex>[@..]                 a foreign `Signing` implementation answering Ok(<these bytes>)
 //!   kinds latin1 | noncanon | swapped | extratag: the built2 package with a main header that is valid but NOT what the
 //!         library itself would lay out (a non-UTF-8 byte in a string; slack bytes at the end of the store; the data of
-//!         two entries swapped in the store; an extra entry with a tag below 1000), made digest-valid by clear_signatures()
+//!         two entries swapped in the store; an extra entry with a tag below 1000), with the digest of the edited header recorded in the signature header
 //!
 //! observation: one record for the start state and one per step, joined by `;`:
 //!   `<4 verify bits R P E C>,<key ids joined by + | err>,<digests ok|err>,<fnv main header>,<fnv content>,<res>[,<gpgv ok|bad|skipped|->]`
@@ -177,8 +177,7 @@ fn split_main_header(bytes: &[u8]) -> Option<(usize, usize, crate::pkggen::GHead
 }
 
 /// start packages whose main header is valid but not laid out the way the library itself would lay it out: derived from
-/// the built2 package by editing the serialised main header; `clear_signatures()` then records the true digest of the
-/// edited header, and the package is written out
+/// the built2 package by editing the serialised main header and recording the digest of the edited header
 fn variant_start(kind: &str) -> Option<Vec<u8>> {
     let base = build_start("built2").ok()?;
     let mut bytes = Vec::new();
@@ -220,18 +219,17 @@ fn variant_start(kind: &str) -> Option<Vec<u8>> {
         }
         _ => return None,
     }
-    let mut edited = bytes[..a].to_vec();
-    edited.extend(g.bytes());
-    edited.extend_from_slice(&bytes[b..]);
-    let mut p = rpm::Package::parse(&mut &edited[..]).ok()?;
-    p.clear_signatures().ok()?;
-    let mut out = Vec::new();
-    p.write(&mut out).ok()?;
-    // the edit survives: the main header on disk is the edited one
-    let (a2, b2, _) = split_main_header(&out)?;
-    if out[a2..b2] != g.bytes()[..] {
-        return None;
-    }
+    // the signature header of a built package records one thing, the SHA-256 of the main header as hex text: put the
+    // digest of the EDITED header there (computed here — the library under test takes no part in making the start package)
+    use sha2::Digest;
+    let old_digest = hex::encode(sha2::Sha256::digest(&bytes[a..b]));
+    let new_header = g.bytes();
+    let new_digest = hex::encode(sha2::Sha256::digest(&new_header));
+    let at = bytes[..a].windows(old_digest.len()).position(|w| w == old_digest.as_bytes())?;
+    let mut out = bytes[..a].to_vec();
+    out[at..at + new_digest.len()].copy_from_slice(new_digest.as_bytes());
+    out.extend(new_header);
+    out.extend_from_slice(&bytes[b..]);
     Some(out)
 }
 
